@@ -29,6 +29,7 @@ REQUIRED = ["totality.draw", "totality.render", "totality.rasterised", "types.ic
             "propagation.value-collision", "flag.draw_icon", "flag.show_label", "flag.draw_occupancies",
             "flag.draw_signals", "flag.draw_continuous", "uncertain-state-drawn", "pp.draw_ids",
             "exactness.uncertain-initial-position", "totality.fan-lanelet-with-marked-short-bound",
+            "trajectory-windows.layout-UUUU", "trajectory-windows.layout-EEEUUUEEEE", "trajectory-windows.mode-continuous",
             "exactness.uncertain-initial-position.begin-after-initial-step"]
 ASSUMPTIONS = ["colours, z-order and label text are not judged", "exactness is judged for exact states only (an extra "
                "region patch for uncertain positions is legitimate)",
@@ -539,3 +540,57 @@ def run(ctx):
                     {"obstacle_type": ty.name, "draw_icon": icon})
             finally:
                 plt.close(fig)
+
+    # ------------------------------------------------------------------ trajectory drawing x time windows x state kinds
+    # a predicted trajectory whose states have exact and uncertain (region-valued) positions in runs: every window
+    # (before / inside / across / after the runs, single steps) in every trajectory drawing mode
+    import commonroad.scenario.state as st_
+    from commonroad.geometry.shape import Circle as _Ci, Rectangle as _Re
+    from commonroad.prediction.prediction import TrajectoryPrediction as _TP
+    from commonroad.scenario.obstacle import DynamicObstacle as _DO
+    from commonroad.scenario.trajectory import Trajectory as _Tr
+    layouts = ["EEEUUUEEEE", "UUUEEE", "EUEUEU", "UUUU", "EEEE"]
+    for i, rng in ctx.cases("trajectory-windows", len(layouts) * ctx.pick(1, 4)):
+        lay = layouts[i % len(layouts)]
+        t0 = rng.choice([0, 2])
+        states = []
+        for k, c in enumerate(lay):
+            p = np.array([5.0 * k, 1.0 + 0.1 * k])
+            pos = p if c == "E" else (_Ci(0.8, p) if k % 2 else _Re(1.5, 0.7, p, 0.2))
+            states.append(st_.CustomState(time_step=t0 + 1 + k, position=pos, orientation=0.1, velocity=5.0))
+        shape = _Re(4.0, 1.8)
+        ob = _DO(700 + i, ObstacleType.CAR, shape, st_.InitialState(time_step=t0, position=np.array([-5.0, 1.0]),
+                                                                    orientation=0.0, velocity=5.0),
+                 _TP(_Tr(t0 + 1, states), shape))
+        sc = Scenario(0.1)
+        sc.add_objects(ob)
+        ctx.feature("trajectory-windows.layout-" + lay)
+        n_ = len(lay)
+        windows = [(0, 0), (t0, t0), (t0 + 1, t0 + 1)] + [(t0 + 1 + a, t0 + 1 + b) for a in range(n_) for b in range(a, n_)
+                                                          if b - a in (0, 1, 2, n_ - 1)] + [(t0 + n_ + 3, t0 + n_ + 9)]
+        for (tb, te) in windows:
+            for mode in ("dotted", "continuous", "continuous+occupancies", "off"):
+                P = MPDrawParams()
+                P.time_begin, P.time_end = tb, te
+                P.dynamic_obstacle.trajectory.draw_trajectory = mode != "off"
+                P.dynamic_obstacle.trajectory.draw_continuous = mode.startswith("continuous")
+                P.dynamic_obstacle.occupancy.draw_occupancies = mode.endswith("occupancies")
+                ctx.evaluation()
+                ctx.fingerprint(["trajwin", lay, t0, tb, te, mode])
+                ctx.feature("trajectory-windows.mode-" + mode)
+                fig = plt.figure(figsize=(3, 3))
+                stage = "draw"
+                try:
+                    rnd = MPRenderer(draw_params=P, ax=fig.gca())
+                    sc.draw(rnd)
+                    stage = "render"
+                    rnd.render()
+                except Exception as e:  # noqa
+                    import traceback
+                    tb__ = traceback.extract_tb(e.__traceback__)
+                    site = next((f.name for f in reversed(tb__) if "commonroad" in f.filename), "?")
+                    ctx.violation("C19/totality/trajectory-window/%s/raises-%s/%s/%s" % (stage, type(e).__name__, site, mode),
+                                  "layout %s (E exact, U uncertain position) t0=%d window [%d, %d]: %r" % (lay, t0, tb, te, e),
+                                  {"layout": lay, "t0": t0, "window": [tb, te], "mode": mode})
+                finally:
+                    plt.close(fig)
